@@ -232,6 +232,14 @@ func (g *GenCfg) genNode(r *RNG, goType string, depth int, embedded bool) T {
 			f[name] = T{"time": g.genTime(r)}
 		case "duration":
 			d := int64(1+r.Intn(100000)) * 1e9
+			if r.Chance(35) {
+				// calendar-sized spans: their xsd texts have no time part ("P1D"), or only one unit ("PT1H")
+				day := int64(86400)
+				// (below a year: the length of the "year" of an xsd:duration is a convention of the third-party
+				// duration package - 356 days there - and not this library's to get right)
+				d = []int64{day, 2 * day, 7 * day, 9 * day, 10 * day, 30 * day, 31 * day, 200 * day, 3600, 24 * 3600, 36 * 3600, 90 * 60, 60, 1, 59,
+					100 * day, day + 1, 250*day + 3600}[r.Intn(18)] * 1e9
+			}
 			if g.SubSecondDur && r.Chance(30) {
 				d += int64(r.Intn(1000)) * 1e6
 			}
